@@ -164,3 +164,143 @@ contract(
     props=('C10',),
     note='Attr: exactly delattr(parent, name); Key: del parent[key]; anything else ValueError',
 )
+
+
+# --- AddTag.apply / RemoveTag.apply (C10, C14) --------------------------------------------------------
+from contracts import tagging as TG   # noqa: E402
+
+
+def _tagop_ctx(c, heap=None):
+  h0 = c.old
+  return type(c)({'buildable': c['parent'], 'argument': h0.fld(ref(c['child']), 'name'),
+                  'tag': h0.fld(ref(c['self']), 'tag')}, h0, heap if heap is not None else c.heap,
+                 result=c.result)
+
+
+def _tagop_req(c):
+  h = c.old
+  ch, par = c['child'], c['parent']
+  cc = h.cls(ref(ch))
+  tag = h.fld(ref(c['self']), 'tag')
+  return z3.And(is_VRef(c['self']), z3.Not(cls_in(h.cls(ref(c['self'])), 'Buildable')), PathEl(h, ch),
+                z3.Implies(cls_in(cc, 'Attr'),
+                           z3.And(CF.BInv(h, par), is_VStr(h.fld(ref(ch), 'name')),
+                                  is_VRef(tag), ref(tag) < h.alloc)))
+
+
+def _not_attr(c):
+  return z3.Not(cls_in(c.old.cls(ref(c['child'])), 'Attr'))
+
+
+contract(
+    'diffing.AddTag.apply', F, 'AddTag.apply', requires=_tagop_req,
+    ensures=lambda c: TG._tag_common_post(_tagop_ctx(c), lambda t, old: z3.Or(
+        t == c.old.fld(ref(c['self']), 'tag'), old)),
+    raises={'ValueError': _not_attr,
+            'AttributeError': lambda c: z3.And(z3.Not(_not_attr(c)), TG._van_attr(_tagop_ctx(c, c.old)))},
+    raises_post={'AttributeError': lambda c: TG._tag_unchanged(_tagop_ctx(c))},
+    mod=lambda c: TG._tag_mod(_tagop_ctx(c, c.old)), writes=CF.WRITES, result='none',
+    cases=lambda c: [cls_in(c.old.cls(ref(c['child'])), 'Attr')] + TG._tag_cases(_tagop_ctx(c, c.old))[1:],
+    props=('C10', 'C14'),
+    note='Attr child: exactly tagging.add_tag(parent, name, tag) (its contract); any other child: '
+         'ValueError; nothing else changes',
+)
+
+contract(
+    'diffing.RemoveTag.apply', F, 'RemoveTag.apply', requires=_tagop_req,
+    ensures=lambda c: TG._tag_common_post(_tagop_ctx(c), lambda t, old: z3.And(
+        old, t != c.old.fld(ref(c['self']), 'tag'))),
+    raises={'ValueError': lambda c: z3.Or(_not_attr(c), TG._rt_notset(_tagop_ctx(c, c.old))),
+            'AttributeError': lambda c: z3.And(z3.Not(_not_attr(c)), TG._van_attr(_tagop_ctx(c, c.old)))},
+    raises_post={'AttributeError': lambda c: TG._tag_unchanged(_tagop_ctx(c))},
+    mod=lambda c: TG._tag_mod(_tagop_ctx(c, c.old)), writes=CF.WRITES, result='none',
+    cases=lambda c: [cls_in(c.old.cls(ref(c['child'])), 'Attr')] + TG._tag_cases(_tagop_ctx(c, c.old))[1:],
+    props=('C10', 'C14'),
+    note='Attr child: exactly tagging.remove_tag(parent, name, tag) (ValueError if the tag is not '
+         'set); any other child: ValueError; nothing else changes',
+)
+
+
+# --- ModifyValue.apply (C10): Attr / Index / Key children (BuildableFnOrCls: bounded layer) -----------
+def _mv_terms(c):
+  h0 = c.old
+  ch, par = c['child'], c['parent']
+  cc = h0.cls(ref(ch))
+  v = h0.fld(ref(c['self']), 'new_value')
+  is_attr, is_idx, is_key = cls_in(cc, 'Attr'), cls_in(cc, 'Index'), cls_in(cc, 'Key')
+  par_list = cls_in(h0.cls(ref(par)), 'list')
+  par_b = cls_in(h0.cls(ref(par)), 'Buildable')
+  idx = h0.fld(ref(ch), 'index')
+  return h0, ch, par, v, is_attr, is_idx, is_key, par_list, par_b, idx
+
+
+def _mv_req(c):
+  h0, ch, par, v, is_attr, is_idx, is_key, par_list, par_b, idx = _mv_terms(c)
+  return z3.And(
+      is_VRef(c['self']), z3.Not(cls_in(h0.cls(ref(c['self'])), 'Buildable')), PathEl(h0, ch),
+      z3.Not(cls_in(h0.cls(ref(ch)), 'BuildableFnOrCls')), is_VRef(par),
+      z3.Implies(is_attr, CF.BInv(h0, par)),
+      z3.Implies(is_key, plain_dict(h0, par)),
+      z3.Implies(is_idx, z3.Or(z3.And(par_list, z3.Not(par_b)), z3.And(par_b, CF.BInv(h0, par)))),
+      z3.Implies(isref(h0, v, 'TaggedValueCls'), z3.And(CF.BFields(h0, v), ref(v) != ref(par))))
+
+
+def _mv_si(c, heap=None):
+  """Context of the Buildable.__setitem__(parent, index, new_value) call."""
+  h0, ch, par, v, is_attr, is_idx, is_key, par_list, par_b, idx = _mv_terms(c)
+  return type(c)({'self': par, 'key': idx, 'value': v}, h0, heap if heap is not None else c.heap,
+                 result=c.result)
+
+
+def _mv_list_j(c):
+  h0, ch, par, v, is_attr, is_idx, is_key, par_list, par_b, idx = _mv_terms(c)
+  n = h0.len(ref(par))
+  i = ival(idx)
+  return z3.If(i < 0, i + n, i), n
+
+
+def _mv_post(c):
+  h0, ch, par, v, is_attr, is_idx, is_key, par_list, par_b, idx = _mv_terms(c)
+  h = c.heap
+  c_attr = type(c)({'self': par, 'name': h0.fld(ref(ch), 'name'), 'value': v}, h0, h, result=c.result)
+  key = h0.fld(ref(ch), 'key')
+  dict_set = z3.And(h.hasarr(ref(par)) == z3.Store(h0.hasarr(ref(par)), key, True),
+                    h.valarr(ref(par)) == z3.Store(h0.valarr(ref(par)), key, v))
+  j, n = _mv_list_j(c)
+  list_set = z3.And(h.len(ref(par)) == n, h.eltarr(ref(par)) == z3.Store(h0.eltarr(ref(par)), j, v))
+  return z3.If(is_attr, CF._sa_post(c_attr),
+               z3.If(is_idx, z3.If(par_b, CF._sii_post(CF._si_ctx(_mv_si(c))), list_set), dict_set))
+
+
+def _mv_index_error(c):
+  h0, ch, par, v, is_attr, is_idx, is_key, par_list, par_b, idx = _mv_terms(c)
+  j, n = _mv_list_j(c)
+  return z3.And(z3.Not(is_attr), is_idx,
+                z3.If(par_b, CF._sii_oob(CF._si_ctx(_mv_si(c, c.old), c.old)), z3.Not(z3.And(0 <= j, j < n))))
+
+
+def _mv_mod(c):
+  h0, ch, par, v, is_attr, is_idx, is_key, par_list, par_b, idx = _mv_terms(c)
+  c_attr = type(c)({'self': par, 'key': h0.fld(ref(ch), 'name')}, h0, h0)
+  from contracts.history import NOTHING
+  pick = lambda cond, xs: [z3.If(cond, x, ref(NOTHING)) for x in xs]
+  return ([ref(par)]
+          + pick(is_attr, CF._b_mod(c_attr, h0.fld(ref(ch), 'name'), tags=True))
+          + pick(z3.And(z3.Not(is_attr), is_idx, par_b), CF._sii_mod(CF._si_ctx(_mv_si(c, c.old), c.old))))
+
+
+contract(
+    'diffing.ModifyValue.apply', F, 'ModifyValue.apply', requires=_mv_req, ensures=_mv_post,
+    raises={'AttributeError': _attr_bad, 'IndexError': _mv_index_error,
+            'ValueError': lambda c: z3.Not(z3.Or(*[cls_in(c.old.cls(ref(c['child'])), n_)
+                                                   for n_ in ('Attr', 'Index', 'Key')]))},
+    mod=_mv_mod, writes=CF.WRITES + ('start', 'stop', 'step'), result='none',
+    cases=lambda c: [cls_in(c.old.cls(ref(c['child'])), 'Attr'), cls_in(c.old.cls(ref(c['child'])), 'Index'),
+                     cls_in(c.old.cls(ref(c['parent'])), 'Buildable'), H.tracking_on(c.old),
+                     isref(c.old, c.old.fld(ref(c['self']), 'new_value'), 'TaggedValueCls')],
+    props=('C10',),
+    note='Attr: exactly setattr(parent, name, new_value); Index: parent[index] = new_value on a list '
+         '(python semantics, IndexError out of range) or on a Buildable (contract of __setitem__); '
+         'Key: parent[key] = new_value on a dict; any other child ValueError; nothing else changes '
+         '(the BuildableFnOrCls child, update_callable, is left to the bounded layer)',
+)
